@@ -1,9 +1,9 @@
 (* Net.v - a small semantics of goroutines communicating over Go channels:
    sequential processes over one state type, buffered channels with static sender/closer and
-   receiver (Kahn-shaped networks), per-process deterministic steps.  Go's unbuffered channels
-   are modelled as channels of capacity 1: every rendezvous execution is the capacity-1
-   execution in which each send is immediately followed by its receive, so every invariant over
-   the reachable configurations proved here holds for the rendezvous executions too.
+   receiver (Kahn-shaped networks), per-process deterministic steps.  Go's unbuffered channel
+   is a two-phase send on a one-slot channel: the sender puts the value (OSend) and then waits
+   (OAwait) until the slot is empty again, i.e. until the receiver has taken it - a send
+   completes exactly when the receive has happened, and every step still belongs to one process.
    Proved: one-step diamond for different processes, and determinacy - if one execution reaches
    a final configuration in n steps then every execution has at most n steps and can be
    completed to that same configuration. *)
@@ -76,6 +76,7 @@ Section Net.
   | ORecv (c : nat) (k : option V -> St)
   | OClose (c : nat) (k : St)
   | OEmit (e : Ev) (k : St)
+  | OAwait (c : nat) (k : St)      (* the sender of c waits until what it has sent on c has been taken *)
   | OHalt.
   Variable prog : St -> op.
   Variables sender receiver : nat -> nat.      (* static channel ownership *)
@@ -104,6 +105,14 @@ Section Net.
         then Some {| procs := upd (procs c) p k;
                      chans := upd (chans c) ch {| buf := buf x; cap := cap x; closed := true |};
                      outs := outs c |}
+        else None
+    | OAwait ch k =>
+        let x := nth ch (chans c) dchan in
+        if (sender ch =? p) && (ch <? length (chans c)) then
+          match buf x with
+          | [] => Some {| procs := upd (procs c) p k; chans := chans c; outs := outs c |}
+          | _ :: _ => None
+          end
         else None
     | ORecv ch k =>
         let x := nth ch (chans c) dchan in
@@ -140,8 +149,8 @@ Section Net.
     exists d, pstep c1 q = Some d /\ pstep c2 p = Some d.
   Proof.
     intros c p q c1 c2 Hpq H1 H2. prep H1. prep H2.
-    destruct (prog (nth p (procs c) dSt)) as [ch1 v1 k1|ch1 k1|ch1 k1|e1 k1|] eqn:P1; try discriminate;
-    destruct (prog (nth q (procs c) dSt)) as [ch2 v2 k2|ch2 k2|ch2 k2|e2 k2|] eqn:P2; try discriminate;
+    destruct (prog (nth p (procs c) dSt)) as [ch1 v1 k1|ch1 k1|ch1 k1|e1 k1|ch1 k1|] eqn:P1; try discriminate;
+    destruct (prog (nth q (procs c) dSt)) as [ch2 v2 k2|ch2 k2|ch2 k2|e2 k2|ch2 k2|] eqn:P2; try discriminate;
     cbv zeta in H1, H2;
     repeat match goal with
     | H : (if ?b then _ else _) = Some _ |- _ => let E := fresh "E" in destruct b eqn:E; [|discriminate]
